@@ -1,7 +1,7 @@
 (** C10 — compile-time constant expressions evaluate as in C.  Model: Model/Calc.v (pest's Pratt
     algorithm with the calculator's table), tied to parse_calc by tools/props/c10.py. *)
 From Coq Require Import String List Bool ZArith Lia.
-From CC Require Import Model.Calc.
+From CC Require Import Model.Calc Model.CalcSpec Proofs.CalcFacts.
 Import ListNotations.
 Open Scope Z_scope.
 
@@ -64,3 +64,31 @@ Qed.
 Theorem C10_ternary_nested_refuted :
   calc [TNum 0; TBin OQ; TNum 0; TBin OQ; TNum 1; TBin OColon; TNum 2; TBin OColon; TNum 3] = COk 2.
 Proof. vm_compute. reflexivity. Qed.
+
+(** ** the general statement (Model/CalcSpec.v, Proofs/CalcFacts.v): every expression built from
+    numbers, the three prefix operators and the 17 binary operators other than ? and : — of any
+    size and nesting, written as C's grammar requires (parentheses where a left operand's top
+    operator is lower, a right operand's lower or equal, a prefix operand's binary) and with any
+    further parentheses the programmer adds — is evaluated by the calculator, with the fuel it
+    really uses, to the value (or the error) that C's grouping gives *)
+Theorem C10_calc_groups_as_C : forall e, no_ternary e -> calc (lin e) = ceval e.
+Proof. exact calc_lin. Qed.
+
+(** redundant parentheses do not matter *)
+Theorem C10_redundant_parens : forall e, no_ternary e -> calc (lin (EPar e)) = calc (lin e).
+Proof. exact calc_lin_par. Qed.
+
+(** the unparser read as "needs parentheses" is the same function *)
+Theorem C10_calc_groups_as_C_np : forall e, no_ternary e -> calc (lin_np e) = ceval e.
+Proof. exact calc_lin_np. Qed.
+
+(** a zero divisor anywhere is reported, not folded *)
+Theorem C10_div_zero_general : forall l r a,
+  no_ternary l -> no_ternary r -> ceval l = COk a -> ceval r = COk 0 ->
+  calc (lin (EBin ODiv l r)) = CDivZero.
+Proof. exact calc_lin_div_zero. Qed.
+
+(** non-vacuity: 1 + 2 * 3 - (4 - 5) << 1 == 7 | 8 *)
+Theorem C10_calc_groups_as_C_example :
+  no_ternary ex7 /\ calc (lin ex7) = COk 8 /\ ceval ex7 = COk 8.
+Proof. exact (conj ex7_no_ternary ex7_both_ways). Qed.
